@@ -276,7 +276,41 @@ class Repo:
             raise AnalysisError(f"anchor module vanished: {name}")
         return m
 
+    def flat(self, fi: FuncInfo) -> FuncInfo:
+        """fi with newly extracted helpers inlined (see sa/flatten.py); fi itself if nothing to inline"""
+        cache = self.__dict__.setdefault("_flat_cache", {})
+        if fi.qualname in cache:
+            return cache[fi.qualname]
+        cache[fi.qualname] = fi  # recursion guard
+        from .flatten import Flattener
+
+        fl = Flattener(self)
+        node = fl.flatten(fi)
+        if node is None:
+            return fi
+        nfi = FuncInfo(fi.qualname, fi.name, node, fi.module, fi.cls, fi.parent)
+        nfi.inlined = list(fl.inlined)  # type: ignore[attr-defined]
+        for parent in ast.walk(node):
+            for child in ast.iter_child_nodes(parent):
+                self.parents[id(child)] = parent
+        if id(fi.node) in self.parents:
+            self.parents[id(node)] = self.parents[id(fi.node)]
+        self._mark_nodes(node, nfi)
+        # nested defs of the copy keep working as their own functions
+        for sub in ast.walk(node):
+            if sub is not node and isinstance(sub, (ast.FunctionDef, ast.AsyncFunctionDef)):
+                q = f"{fi.qualname}.{sub.name}"
+                sfi = FuncInfo(q, sub.name, sub, fi.module, None, nfi)
+                self._mark_nodes(sub, sfi)
+        cache[fi.qualname] = nfi
+        self.__dict__.setdefault("inlined_helpers", []).extend((fi.short, h) for (_c, h) in fl.inlined)
+        return nfi
+
     def func(self, qualname: str) -> FuncInfo:
+        fi = self._func(qualname)
+        return self.flat(fi)
+
+    def _func(self, qualname: str) -> FuncInfo:
         fi = self.funcs.get(qualname)
         if fi is None:
             # method inherited?  module.Class.meth
@@ -448,6 +482,10 @@ class Repo:
                 if src is not None and imp[1] in src.consts:
                     return src.consts[imp[1]]
             return UNKNOWN
+        if isinstance(node, ast.Attribute) and node.attr in ("size", "format") and isinstance(node.value, (ast.Name, ast.Attribute)):
+            fmt = self._struct_format_of(node.value, mod, cls)
+            if fmt is not None:
+                return struct.calcsize(fmt) if node.attr == "size" else fmt
         if isinstance(node, ast.Attribute):
             # Class.CONST or module.CONST
             if isinstance(node.value, ast.Name):
@@ -526,6 +564,29 @@ class Repo:
                 return UNKNOWN
             return vals
         return UNKNOWN
+
+    def _struct_format_of(self, e: ast.AST, mod: Module, cls: ClassInfo | None) -> str | None:
+        """format string of a module-/class-level ``X = struct.Struct(<const>)`` binding named by e"""
+        name = e.id if isinstance(e, ast.Name) else (e.attr if isinstance(e, ast.Attribute) and unparse(e.value) in ("self", "cls", "self.__class__") or
+                                                     (isinstance(e, ast.Attribute) and isinstance(e.value, ast.Name) and e.value.id in self.classes) else None)
+        if name is None:
+            return None
+        bodies = []
+        if cls is not None:
+            for c in self.mro(cls):
+                bodies.append((c.node.body, c.module, c))
+        if isinstance(e, ast.Attribute) and isinstance(e.value, ast.Name) and e.value.id in self.classes:
+            c = self.classes[e.value.id]
+            bodies.append((c.node.body, c.module, c))
+        bodies.append((mod.tree.body, mod, None))
+        for body, m, c in bodies:
+            for st in body:
+                tgt = st.targets[0] if isinstance(st, ast.Assign) and len(st.targets) == 1 else (st.target if isinstance(st, ast.AnnAssign) else None)
+                v = getattr(st, "value", None)
+                if isinstance(tgt, ast.Name) and tgt.id == name and isinstance(v, ast.Call) and unparse(v.func) in ("struct.Struct", "Struct") and v.args:
+                    fmt = self.fold(v.args[0], m, c)
+                    return fmt if isinstance(fmt, str) else None
+        return None
 
     def _resolve_import_module(self, mod: Module, base: str) -> Module | None:
         name = base.lstrip(".")
@@ -872,6 +933,14 @@ class Repo:
     def local_alias(self, name: str, fi: FuncInfo) -> ast.AST | None:
         """Single-assignment local -> its defining expression."""
         vals = self._local_assignments(name, fi)
+        if len(vals) == 1:
+            v0 = vals[0].value if isinstance(vals[0], ast.AnnAssign) else vals[0]
+            if isinstance(v0, (ast.List, ast.Dict, ast.Set)) or (isinstance(v0, ast.Call) and not v0.args):
+                # the local is the origin and an attribute is bound to the same object:  x = []; self.A = x
+                pubs = [n for n in self.own_nodes(fi) if isinstance(n, ast.Assign) and len(n.targets) == 1 and isinstance(n.targets[0], ast.Attribute)
+                        and isinstance(n.value, ast.Name) and n.value.id == name and unparse(n.targets[0].value) == "self"]
+                if len(pubs) == 1:
+                    return ast.copy_location(ast.Attribute(value=ast.Name(id="self", ctx=ast.Load()), attr=pubs[0].targets[0].attr, ctx=ast.Load()), pubs[0])
         if len(vals) == 1 and not isinstance(vals[0], ast.AnnAssign):
             return vals[0]
         if len(vals) == 1 and isinstance(vals[0], ast.AnnAssign):
@@ -898,6 +967,24 @@ class Repo:
             while p is not None:
                 al = self.local_alias(fn.id, p)
                 if al is not None and not isinstance(al, ast.Constant):
+                    # value taken from a class-level dict of functions: every registered function is a target
+                    tbl = None
+                    if isinstance(al, ast.Call) and isinstance(al.func, ast.Attribute) and al.func.attr == "get":
+                        tbl = al.func.value
+                    elif isinstance(al, ast.Subscript):
+                        tbl = al.value
+                    if isinstance(tbl, ast.Attribute) and unparse(tbl.value) in ("self", "cls", "self.__class__"):
+                        ci = self.class_of_func(p)
+                        vals = []
+                        for c in (self.mro(ci) if ci else []):
+                            for st in c.node.body:
+                                tgt = st.targets[0] if isinstance(st, ast.Assign) else (st.target if isinstance(st, ast.AnnAssign) else None)
+                                if isinstance(tgt, ast.Name) and tgt.id == tbl.attr and isinstance(getattr(st, "value", None), ast.Dict):
+                                    for v in st.value.values:
+                                        if isinstance(v, ast.Name) and v.id in c.methods:
+                                            vals.append(c.methods[v.id])
+                        if vals:
+                            return vals
                     if isinstance(al, ast.Call) and unparse(al.func) in ("partial", "functools.partial") and al.args:
                         return self.resolve_callee(al.args[0], p, _depth + 1)
                     if isinstance(al, (ast.Attribute, ast.Name)) and unparse(al) != fn.id:
